@@ -17,9 +17,17 @@ def fresh_name(base):
     return f"{base}!{next(_ctr)}"
 
 
-def reset_names():
+def reset_names(start=1):
     global _ctr
-    _ctr = itertools.count(1)
+    _ctr = itertools.count(start)
+
+
+def names_position():
+    """next value of the fresh-name counter (without consuming it for callers that restore it right away)"""
+    global _ctr
+    v = next(_ctr)
+    _ctr = itertools.count(v)
+    return v
 
 
 R = z3.RealSort()
@@ -177,9 +185,14 @@ class DictObj:
         self.velem = velem
         self.vcls = vcls
         self.label = label
+        self.kcls = None        # class of the keys when they are entity objects
 
     def clone(self, memo):
-        return DictObj(self.keys, self.nk, self.vkind, self.vals, self.vcnt, self.vn, self.velem, self.vcls, self.label)
+        d = DictObj(self.keys, self.nk, self.vkind, self.vals, self.vcnt, self.vn, self.velem, self.vcls, self.label)
+        d.kcls = self.kcls
+        if hasattr(self, 'frozen'):
+            d.frozen = self.frozen
+        return d
 
 
 class DictEntryList(ListObj):
@@ -353,7 +366,7 @@ class State:
         s.locals = {k: memo_clone(v, memo) for k, v in self.locals.items()}
         s.roots = {k: memo_clone(v, memo) for k, v in self.roots.items()}
         s.now = self.now
-        s.ghost = dict(self.ghost)
+        s.ghost = {k: (set(v) if isinstance(v, set) else list(v) if isinstance(v, list) else v) for k, v in self.ghost.items()}
         s.spawns = [(memo_clone(g, memo), memo_clone(p, memo), nd) for g, p, nd in self.spawns]
         s.events = list(self.events)
         s.reads = self.reads
